@@ -23,13 +23,16 @@ def run(ck):
     for i in range(6):
         a = ["--rounds", int(1500 * kc), "--scenarios", 6, "--delay", [300, 50, 800][i % 3], "--seed", sa.subseed(ck, 100 + i), "--dir", os.path.join(ck.rundir, "conc%d" % i)]
         if i % 3 == 1:
+            # with processes: gc/loader processes, pre-forked workers with several threads each, a worker leaving in an orderly way,
+            # a worker killed inside save() followed by a probe from another process - 24 scenarios walk through all of them twice
             a.append("--processes")
+            a[3] = 24
         jobs.append(dict(exe=(tsan if i % 3 == 2 else conc), args=a, label="conc%d" % i, timeout=14400))
     sa.run_jobs(ck, jobs, sets=("cases", "shapes"))
     ck.assumptions += [
         "a write() of the 16-byte header is atomic with respect to a process kill and, lying inside sector 0, with respect to power loss (as the property states); data-area writes may stop at any byte",
         "sector model: each touched 512-byte sector independently holds its old or its new content; the file length is the larger of the old length and the highest sector that reached the disk",
-        "concurrent part: each owner is the only writer of its session id, so after its save of a live value returns, its own load must return exactly that value; disturbers only load and collect garbage; unlink() is delayed by a link-time shim (20-320 us)",
+        "concurrent part: each owner is the only writer of its session id, so after its save of a live value returns, its own load must return exactly that value; disturbers only load and collect garbage; unlink() is delayed by a link-time shim (20-320 us), write() as well in the saver that gets killed",
         "a CRC-32 collision between a torn state and its header would be a genuine acceptance of a mixture (expected once per 2^32 states)",
     ]
     ck.finish("fault_enumeration",
@@ -37,6 +40,7 @@ def run(ck):
               "link-time shim, then every prefix of it, every byte prefix of the data area (all in thorough, <=300 per write in quick), subsets of touched 512-byte sectors (all when <=12 sectors in thorough) and real child-process "
               "crashes after exactly k bytes are each followed by the real load(): result must be 'no session' (file unlinked) or a complete earlier/in-flight payload with a deadline of some save that is not in the past; "
               "garbage collection is run on directories of live, expired, unreadable and foreign files against a model. Concurrent part: 1..3 owner threads (expired save, live save, load) against a gc thread and 0..2 loader "
-              "threads, and against gc/loader processes forked after the storage was created, for plain-mutex, process-shared-mutex and fcntl locking, under ASan and ThreadSanitizer. non-trivial = distinct (old file, new payload) cases",
+              "threads, and against gc/loader processes forked after the storage was created, for plain-mutex, process-shared-mutex and fcntl locking, under ASan and ThreadSanitizer; pre-forked workers (2..3 processes x 2..3 owner threads plus a loader each, ids spread over the lock slots), the same with one more worker leaving in an orderly way, and a worker killed inside save() followed by load/save probes from another process (a probe that has not returned after 60 s counts as blocked). non-trivial = distinct (old file, new payload) cases",
               "crash_states", "cases", min_evals=20000,
-              required_nonzero=("states_prefix", "states_byte_prefix", "states_sector_subset", "states_real_crash", "loads_returning_a_session", "loads_reporting_no_session", "gc_files_judged", "garbage_size_field_cases", "conc_rounds", "conc_gc_runs", "conc_disturber_loads", "unlinks_delayed", "conc_scenarios_processes_fcntl", "conc_scenarios_threads_pshared-mutex"))
+              required_nonzero=("states_prefix", "states_byte_prefix", "states_sector_subset", "states_real_crash", "loads_returning_a_session", "loads_reporting_no_session", "gc_files_judged", "garbage_size_field_cases", "conc_rounds", "conc_gc_runs", "conc_disturber_loads", "unlinks_delayed", "conc_scenarios_processes_fcntl", "conc_scenarios_threads_pshared-mutex",
+                                "conc_scenarios_workers_fcntl", "conc_scenarios_workers_pshared-mutex", "conc_scenarios_worker_left_pshared-mutex", "savers_killed_while_saving", "probes_after_killed_saver"))
